@@ -26,6 +26,8 @@ pub trait ChainAnyT<W, S>: Sized + Clone {
     fn into_data(self, binary: bool) -> Result<(Vec<W>, Vec<W>), Self>;
     fn heads_debug(&self) -> String;
     fn is_whole(&self) -> bool;
+    /// `self.clone_from(src)` on the underlying coders (same precision only; `false` = not done)
+    fn clone_from_coder(&mut self, src: &Self) -> bool;
     /// checkpoint, decode with `m0`, seek back to the checkpoint, decode with `m1`; returns
     /// (first result, whether the seek succeeded, second result). After a refused seek (the
     /// Vec backend cannot grow back) nothing more is decoded: the first result stands.
@@ -106,6 +108,13 @@ macro_rules! chain_level {
             }
             fn is_whole(&self) -> bool {
                 match self { $( $Any::$V(c) => c.is_whole(), )* }
+            }
+            fn clone_from_coder(&mut self, src: &Self) -> bool {
+                match (self, src) {
+                    $( ($Any::$V(c), $Any::$V(s)) => { c.clone_from(s); true } )*
+                    #[allow(unreachable_patterns)]
+                    _ => false,
+                }
             }
             fn dec_via_seek(&mut self, m0: &Built, m1: &Built) -> (DecRes, bool, DecRes) {
                 use constriction::{Pos, Seek};
@@ -250,6 +259,10 @@ pub struct ChainTrace {
     pub steps: Vec<ChainStep>,
     pub way: Way,
     pub tamper: Tamper,
+    /// every k-th step the live coder is replaced by an older copy of itself that was
+    /// overwritten in place with `clone_from(&live)` (observationally a no-op)
+    #[serde(default)]
+    pub clone_from_every: Option<usize>,
 }
 
 macro_rules! viol {
@@ -302,8 +315,22 @@ where
             viol!(ctx, "C14", "constructor-accepts-data-reference-refuses", "data={:x?}", d64);
         }
         let mut run = DecodeRun { coder, symbols: Vec::new(), used: Vec::new(), changes: Vec::new(), out_of_data_at: None, provenance: Vec::new() };
+        let mut stale: Option<A<C>> = None;
         for (i, st) in t.steps.iter().enumerate() {
             ctx.op = i;
+            if let Some(k) = t.clone_from_every {
+                let k = k.max(2);
+                if i % k == 0 {
+                    stale = Some(run.coder.clone());
+                } else if i % k == k - 1 {
+                    if let Some(mut tgt) = stale.take() {
+                        if tgt.clone_from_coder(&run.coder) {
+                            ctx.stats.hit("op-chain-clone-from");
+                            run.coder = tgt;
+                        }
+                    }
+                }
+            }
             match st {
                 ChainStep::ChangeP { p } => {
                     let from = run.coder.precision();
@@ -493,7 +520,21 @@ where
     // encode back in reverse, undoing the precision changes in reverse
     let mut changes = run.changes.clone();
     let mut failed_cleanly = false;
+    let mut stale_enc: Option<A<C>> = None;
     for i in (0..k).rev() {
+        if let Some(kk) = t.clone_from_every {
+            let kk = kk.max(2);
+            if i % kk == 0 {
+                stale_enc = Some(enc.clone());
+            } else if i % kk == kk - 1 {
+                if let Some(mut tgt) = stale_enc.take() {
+                    if tgt.clone_from_coder(&enc) {
+                        ctx.stats.hit("op-chain-clone-from-encoder");
+                        enc = tgt;
+                    }
+                }
+            }
+        }
         while let Some(&(pos, from, _to)) = changes.last() {
             if pos > i {
                 changes.pop();
@@ -725,5 +766,6 @@ pub fn generate(seed: u64, prop: &str, _thorough: bool) -> ChainTrace {
         }
         _ => Tamper::None,
     };
-    ChainTrace { cfg, binary, data, p0, models, steps, way, tamper }
+    let clone_from_every = if bias.chance(1, 4) { Some(2 + bias.usize(5)) } else { None };
+    ChainTrace { cfg, binary, data, p0, models, steps, way, tamper, clone_from_every }
 }
